@@ -54,6 +54,13 @@ def main():
             cases.append(lu.plan_case(ck.rng, "D", nm, nops, lu.FAMILIES, stats=ck.hist))
         for k in range(nsing):
             cases.append(lu.plan_singular(ck.rng, "D", max(4, nmax // 2), lu.FAMILIES))
+        # Forrest-Tomlin column-file memory management: long histories without re-loads, growing columns
+        for k in range(36 if ck.tier == "quick" else 160):
+            if ck.tier == "quick":
+                a, b, u = ck.rng.choice([(12, 20, 80), (12, 20, 80), (20, 30, 100), (30, 40, 110)])
+            else:
+                a, b, u = ck.rng.choice([(12, 20, 80), (20, 30, 100), (30, 40, 120), (30, 40, 120), (40, 60, 150)])
+            cases.append(lu.plan_ftgrow(ck.rng, a, b, u))
 
     # change(idx, column) with neither a preceding solve...4update nor an explicit eta (ETA only) is probed in separate
     # processes: a crash there must not hide the other cases
@@ -105,14 +112,16 @@ def main():
     ck.cov["checker_queries"] = len(Q.meta)
     ck.cov["rule"] = ("one evaluation = one solve / multi-solve / update of a generated history, judged by the extracted checker against the "
                       "specification state (current matrix after the column replacements so far); families: random sparse, dense, "
-                      "triangular, singleton-rich, dense bump, permuted identity, power-of-two row/column scaled; both update types; Markowitz "
+                      "triangular, singleton-rich, dense bump, permuted identity, power-of-two row/column scaled, and diagonally dominant matrices with "
+                      "long Forrest-Tomlin histories of growing columns (column-file memory management of U); both update types; Markowitz "
                       "thresholds from a grid; sparse, dense and unit right-hand sides; exactly singular matrices (zero/duplicate/dependent "
                       "columns, zero/dependent rows); distinct = distinct (case, operation) pairs")
     ck.cov["trusted_base"] = ["Coq 8.16.1 kernel (coqc), no native_compute; vm_compute only in Examples",
                               "axioms: none (Print Assumptions: closed under the global context)" if not ck.coq["axioms"] else "axioms: " + ", ".join(ck.coq["axioms"]),
                               "extraction: ExtrOcamlBasic only; OCaml 4.13.1; extract/zutil.ml + extract/C10/driver.ml (zarith for I/O only)",
                               "harness/C10.cpp compiled with g++ -fno-access-control against /repo/src; it mirrors SPxBasisBase::factorize/change "
-                              "(refactorization when an update throws, reports a status other than OK, or the stability falls below minStab)",
+                              "(refactorization when an update throws, reports a status other than OK, the stability falls below minStab, and its memory / fill / "
+                              "non-zero / 200-update triggers)",
                               "checks/lu_common.py: generators, bookkeeping, and scaling of each query's data by common positive factors to integers "
                               "(the criteria are homogeneous); its exact reference elimination is NOT trusted: every inverse / kernel vector is "
                               "validated by the extracted regular_cert_scaled / singular_cert"]
